@@ -18,7 +18,7 @@ from concurrent.futures import ProcessPoolExecutor
 sys.path.insert(0, '/verif')
 READERS = {
     'state': ['C01', 'C02', 'C03', 'C06', 'C07', 'C08', 'C09', 'C10', 'C12', 'C13', 'C14', 'C15', 'C19', 'C11'],
-    'hands': ['C04', 'C05'], 'lookups': ['C04', 'C13'], 'utilities': ['C01', 'C04', 'C19'], 'games': ['C11'],
+    'hands': ['C04', 'C05'], 'lookups': ['C04', 'C13'], 'utilities': ['C01', 'C04', 'C19', 'C13', 'C16', 'C20'], 'games': ['C11'],
     'notation': ['C11', 'C16', 'C17', 'C20'], 'analysis': ['C18'],
 }
 CMP = {ast.Lt: ast.LtE, ast.LtE: ast.Lt, ast.Gt: ast.GtE, ast.GtE: ast.Gt, ast.Eq: ast.NotEq, ast.NotEq: ast.Eq,
